@@ -3,6 +3,7 @@ from geomgen import *
 import math
 
 ID = "C15"
+SCHEDULE_DEPENDENT = True     # a failure that does not recur when the case is re-run is still reported (engine: report())
 THEOREM_MODULE = "SimVerif.Props.C15"
 NONTRIVIAL_FLAGS = {"partial-overlap", "covered-box", "multi-cover", "isolated-box", "identical-pair"}
 RULE = ("requests `own n (xc yc angle|- aspect height)*n`, sets of 1..8 boxes: integer-coordinate axis-aligned boxes on a small lattice (many shared edges, corners, nestings, duplicates), random axis-aligned, "
